@@ -109,6 +109,25 @@ def render(p: Dict[str, Any]) -> str:
     return "\n".join(out) + "\n"
 
 
+def capsify(p: Dict[str, Any]) -> Dict[str, Any]:
+    """The same program with every name in upper case (AA, BB): pydoctor treats such variables as constants, Python does not care."""
+    def up(n: str) -> str:
+        head, _, tail = n.partition(".")
+        return head.upper() * 2 + (("." + tail) if tail else "")
+    q = json.loads(json.dumps(p))
+    q["nm"] = [up(n) for n in q["nm"]]
+    for key in ("py", "pd"):
+        for e in q[key]:
+            for x in e["names"]:
+                x["name"] = up(x["name"])
+    for key in ("pydoc", "pddoc"):
+        for e in q[key]:
+            for x in e["docs"]:
+                x["name"] = up(x["name"])
+    q["caps"] = True
+    return q
+
+
 def doc_site(doc: Optional[str]) -> Optional[int]:
     if not doc:
         return None
@@ -361,6 +380,9 @@ def run(ctx: Ctx) -> int:
         r3 = ctx.tlc("Builder", CFG.format(maxn=3, names=tla({"a"}), kinds=tla({"docstr", "def", "cm", "prop", "setter", "class", "assign", "oldsm", "if", "ifmain", "try"})),
                      workers="auto", check=True, timeout=3000)
         progs = progs + r3.printed
+        # the same name at module level and inside a class: every 3-statement program over two names
+        r3b = ctx.tlc("Builder", CFG.format(maxn=3, names=tla({"a", "b"}), kinds=tla({"def", "class", "assign", "cm"})), workers="auto", check=True, timeout=3000)
+        progs = progs + [p for p in r3b.printed if p["n"] == 3]
         # re-assignments and their docstrings: every 4-statement program over assignments, strings, a block and a def
         r4 = ctx.tlc("Builder", CFG.format(maxn=4, names=tla({"a", "b"}), kinds=tla({"assign", "docstr", "try"})), workers="auto", check=True, timeout=3000)
         progs = progs + [p for p in r4.printed if p["n"] == 4]
@@ -372,6 +394,9 @@ def run(ctx: Ctx) -> int:
     ctx.exhaustive = True
     if not progs:
         raise MachineryError("TLC emitted no program")
+    caps = [capsify(p) for p in progs if sum(1 for k in p["kind"] if k == "assign") >= 2]
+    ctx.extra["programs_also_rendered_with_upper_case_names"] = len(caps)
+    progs = progs + caps
     design_disagree = sum(1 for p in progs if not p["agree"])
     ctx.extra["programs"] = len(progs)
     ctx.extra["design_level_programs_where_transcription_differs_from_reference"] = design_disagree
@@ -482,6 +507,16 @@ def run(ctx: Ctx) -> int:
         ctx.violation({"invariant": "DocumentedIsPyExec", "what": "source encoding", **wit, "diff": [], "program": {}, "source": "",
                        "key": "encoding:" + wit["module"]})
     ctx.extra["encoded_modules_compared"] = 4
+    # ---- docstrings replaced through an assignment to __doc__: model AND rendered text follow the interpreter
+    from .. import docassign_check
+    try:
+        da_bad = docassign_check.check(ctx.scratch)
+    except RuntimeError as e:
+        raise MachineryError(str(e))
+    for wit in da_bad:
+        ctx.violation({"invariant": "DocumentedIsPyExec", "what_side": "__doc__ assignment", **wit, "diff": [], "program": {}, "source": "",
+                       "key": "docassign:" + wit["object"] + ":" + wit["what"]})
+    ctx.extra["doc_assignments_compared"] = len(docassign_check.FILES)
     # negative control: a corrupted real table must differ from the reference
     p0 = next(p for p in progs if p["py"][0]["names"])
     t = spec_table(p0["py"])
@@ -504,6 +539,14 @@ def replay(ctx: Ctx, path: str) -> int:
     if w.get("what") == "source encoding":
         from .. import encodings_check
         bad = bool(encodings_check.check(ctx.scratch))
+        print("replay:", "still differs" if bad else "holds now")
+        if bad:
+            print(f"VIOLATION property=C03 replay={path}")
+        ctx.cleanup()
+        return 1 if bad else 0
+    if w.get("what_side") == "__doc__ assignment":
+        from .. import docassign_check
+        bad = any(x["object"] == w["object"] for x in docassign_check.check(ctx.scratch))
         print("replay:", "still differs" if bad else "holds now")
         if bad:
             print(f"VIOLATION property=C03 replay={path}")
